@@ -9,7 +9,7 @@
 //!
 //! line:  CP <id> <family> <ntowers> <max_retry_s> <auto_retry_s> <max_interval_s> <nsteps> <step>* END
 //! step:  S <kind> <a> <b> RES <code> <ms> OBS <observation>
-//!   kind 1 REG t cls | 2 MODE t cls (cls >= 100: register class cls-100) | 3 UP t 0/1 | 4 REV l 0 | 5 SETTLE 0 0 | 6 SLEEP ms 0 | 7 RETRY t 0
+//!   kind 1 REG t cls (register classes 0 good 1 badsig 2 same-expiry 3 garbage 4 api-error 5 no-more-slots 6 more-slots-same-expiry 20 down) | 2 MODE t cls (cls >= 100: register class cls-100) | 3 UP t 0/1 | 4 REV l 0 | 5 SETTLE 0 0 | 6 SLEEP ms 0 | 7 RETRY t 0
 //!        | 8 ABANDON t 0 | 9 KILL 0 0 | 10 START 0 0 | 11 REVNOWAIT l 0 | 12 WAKE 0 0
 //!   RES code: 0 ok / accepted, 1 error reply, 2 no answer within the timeout, 3 not applicable; ms = duration of the step
 //! observation (ints):
@@ -1054,7 +1054,7 @@ fn main() {
                 scs.retain(|s| s.family == only);
             } else {
                 let mut rng = Rng::new(seed ^ 0xC05);
-                let nrand = env_u64("CP_NRAND", if thorough { 400 } else { 24 });
+                let nrand = env_u64("CP_NRAND", if thorough { 1200 } else { 40 });
                 for _ in 0..nrand {
                     scs.push(random_scenario(&mut rng));
                 }
